@@ -48,6 +48,11 @@ func (x *Exec) call(fr *frame, st *State, cc *ssa.CallCommon, ins ssa.Instructio
 		return x.callFunc(fr, st, callee, args, bindings, resT, pos)
 	}
 	fv := x.operand(st, cc.Value)
+	if fv.F == nil && len(fv.L) == 1 && fv.L[0].Op == "intlit" {
+		if cl := x.closureTab[fv.L[0].Val.Int64()]; cl != nil {
+			fv.F = cl // a known function value read back from memory
+		}
+	}
 	if fv.F != nil {
 		if fv.F.Recv != nil {
 			args = append([]Value{*fv.F.Recv}, args...)
@@ -55,6 +60,9 @@ func (x *Exec) call(fr *frame, st *State, cc *ssa.CallCommon, ins ssa.Instructio
 		return x.callFunc(fr, st, fv.F.Fn, args, fv.F.Bindings, resT, pos)
 	}
 	x.Notes.Uncontracted["call through unknown function value at "+x.Prog.Pos(pos)] = true
+	if traceCalls {
+		fmt.Fprintf(os.Stderr, "TRACE %*sHAVOC dyncall of %s (%T) at %s\n", len(x.stack), "", cc.Value.Name(), cc.Value, x.Prog.Pos(pos))
+	}
 	res := x.havocCall(st, "dyncall", resT)
 	if ct := x.rootContract; ct != nil && len(ct.DynSets) > 0 {
 		env := &evalEnv{x: x, st: st, pkg: ct.Pkg.Types, vars: map[string]Value{}}
